@@ -1474,4 +1474,233 @@ theorem encRun_xrun (p : Params) (pol : Policy) (tun : Tuning) (calls : List Cal
       simp only [h1]
       exact XR.append hx1 (XR.append hx2 hx3)
 
+/-! ### The decoder -/
+
+/-- What one decoder step emits: nothing borrowed on error; on success it consumes at most its
+input, and a borrowed append (only by the borrow method) is a prefix of the input. -/
+theorem dec_once_src (p : Params) (m : Method) (s : DecState) (b : UInt8) (rest : List UInt8) :
+    (∀ err es, Dec.once p m s b rest = .error (err, es) → ∀ e ∈ es, e.method = .borrow → False) ∧
+    (∀ o, Dec.once p m s b rest = .ok o → o.consumed ≤ (b :: rest).length ∧
+      ∀ e ∈ o.emits, e.method = .borrow → ∀ bs, e.op = .append bs → m = .borrow ∧ bs <+: (b :: rest)) := by
+  constructor
+  · intro err es h e he hb
+    cases s with
+    | initial =>
+      simp only [Dec.once] at h
+      split at h
+      · cases h; cases he
+      · split at h <;> cases h
+    | beforeChunk ins =>
+      simp only [Dec.once] at h
+      split at h
+      · cases h
+        cases ins
+        · cases he
+        · simp only [if_true, List.mem_singleton] at he; subst he; cases hb
+      · cases h
+    | midHeader b0 =>
+      simp only [Dec.once] at h
+      split at h
+      · cases h; cases he
+      · split at h
+        · cases h; cases he
+        · split at h <;> cases h
+    | inChunk rem term => simp only [Dec.once] at h; cases h
+  · intro o h
+    cases s with
+    | initial =>
+      simp only [Dec.once] at h
+      split at h
+      · cases h
+      · split at h <;> (cases h; exact ⟨by simp, by intro e he; cases he⟩)
+    | beforeChunk ins =>
+      simp only [Dec.once] at h
+      split at h
+      · cases h
+      · cases h
+        refine ⟨by simp, ?_⟩
+        intro e he hb
+        cases ins
+        · cases he
+        · simp only [if_true, List.mem_singleton] at he; subst he; cases hb
+    | midHeader b0 =>
+      simp only [Dec.once] at h
+      split at h
+      · cases h
+      · split at h
+        · cases h
+        · split at h <;> (cases h; exact ⟨by simp, by intro e he; cases he⟩)
+    | inChunk rem term =>
+      simp only [Dec.once, Except.ok.injEq] at h
+      subst h
+      refine ⟨Nat.min_le_left _ _, ?_⟩
+      intro e he hb bs hop
+      simp only [List.mem_singleton] at he
+      subst he
+      simp only [Woodpile.Pipe.Op.append.injEq] at hop
+      subst hop
+      exact ⟨hb, List.take_prefix _ _⟩
+
+theorem applyEmit_toks_append {w w' : World} {i : Nat} {toks toks' : List Backref} {e : Emit} {src : Slice}
+    (ha : Woodpile.Pipe.Op.isAppend e.op = true) (h : applyEmit w i toks e src = some (w', toks')) : toks' = toks := by
+  obtain ⟨op, m⟩ := e
+  cases op with
+  | append bs =>
+    cases m <;> simp only [applyEmit, Option.map_eq_some_iff, Prod.mk.injEq] at h <;>
+      (obtain ⟨_, _, _, h2⟩ := h; exact h2.symm)
+  | register n => simp [Woodpile.Pipe.Op.isAppend] at ha
+  | fill id bs => simp [Woodpile.Pipe.Op.isAppend] at ha
+
+theorem applyStep_toks_appends {i : Nat} {src : Slice} (es : List Emit)
+    (ha : (es.map (·.op)).all Woodpile.Pipe.Op.isAppend = true) :
+    ∀ {w w' : World} {toks toks' : List Backref}, applyStep w i toks es src = some (w', toks') → toks' = toks := by
+  induction es with
+  | nil =>
+    intro w w' toks toks' h
+    simp only [applyStep, Option.some.injEq, Prod.mk.injEq] at h
+    exact h.2.symm
+  | cons e t ih =>
+    intro w w' toks toks' h
+    simp only [List.map_cons, List.all_cons, Bool.and_eq_true] at ha
+    simp only [applyStep] at h
+    cases h1 : applyEmit w i toks e src with
+    | none => rw [h1] at h; cases h
+    | some x =>
+      obtain ⟨w1, toks1⟩ := x
+      rw [h1] at h
+      have := applyEmit_toks_append ha.1 h1
+      subst this
+      exact ih ha.2 h
+
+theorem decFeed_zero (p : Params) (m : Method) (w : World) (i : Nat) (s : DecState) (base : Slice)
+    (input : List UInt8) (pos : Nat) : decFeed p m 0 w i s base input pos = some (w, .ok s) := rfl
+
+theorem decFeed_nil (p : Params) (m : Method) (fuel : Nat) (w : World) (i : Nat) (s : DecState) (base : Slice)
+    (pos : Nat) : decFeed p m fuel w i s base [] pos = some (w, .ok s) := by
+  cases fuel <;> rfl
+
+theorem decFeed_cons_error (p : Params) (m : Method) (fuel : Nat) (w : World) (i : Nat) (s : DecState)
+    (base : Slice) (b : UInt8) (rest : List UInt8) (pos : Nat) (err : DecErr) (es : List Emit)
+    (h : Dec.once p m s b rest = .error (err, es)) :
+    decFeed p m (fuel + 1) w i s base (b :: rest) pos =
+      match applyStep w i [] es base with
+      | some (w', _) => some (w', .error err)
+      | none => none := by
+  simp only [decFeed, h]; rfl
+
+theorem decFeed_cons_ok (p : Params) (m : Method) (fuel : Nat) (w : World) (i : Nat) (s : DecState)
+    (base : Slice) (b : UInt8) (rest : List UInt8) (pos : Nat) (o : Dec.OnceOut)
+    (h : Dec.once p m s b rest = .ok o) :
+    decFeed p m (fuel + 1) w i s base (b :: rest) pos =
+      match applyStep w i [] o.emits { base with off := base.off + pos, len := base.len - pos } with
+      | none => none
+      | some (w', _) => decFeed p m fuel w' i o.st base ((b :: rest).drop o.consumed) (pos + o.consumed) := by
+  simp only [decFeed, h]; rfl
+
+theorem decfeed_cons_error (p : Params) (m : Method) (fuel : Nat) (s : DecState) (b : UInt8) (rest : List UInt8)
+    (ee : DecErr × List Emit) (h : Dec.once p m s b rest = .error ee) :
+    Dec.feed p m (fuel + 1) s (b :: rest) = .error ee := by
+  simp only [Dec.feed, h]
+
+theorem decfeed_cons_ok (p : Params) (m : Method) (fuel : Nat) (s : DecState) (b : UInt8) (rest : List UInt8)
+    (o : Dec.OnceOut) (h : Dec.once p m s b rest = .ok o) :
+    Dec.feed p m (fuel + 1) s (b :: rest) =
+      match Dec.feed p m fuel o.st ((b :: rest).drop o.consumed) with
+      | .error (e, es) => .error (e, o.emits ++ es)
+      | .ok (s', es) => .ok (s', o.emits ++ es) := by
+  simp only [Dec.feed, h]; rfl
+
+/-- One `decode` / `decode_copy` call on the structural iovec: no panic; the same verdict as the
+pipe-level decoder; the iovec keeps representing the pipe on which the same emits are run (those
+emitted before a rejected byte included). -/
+theorem decFeed_sim (p : Params) (i : Nat) (m : Method) (g : List UInt8) (base : Slice) (fuel : Nat) :
+    ∀ (w : World) (v : Iov) (s : DecState) (q : Pipe) (input : List UInt8) (pos : Nat),
+    w.iov i = some v → SimV w v g [] q →
+    (m = .borrow → ∃ b, base.region = .ext b ∧ InBuf w b (base.off + pos) input) →
+    ∃ w' v' res, decFeed p m fuel w i s base input pos = some (w', res) ∧ w'.iov i = some v' ∧
+      w'.exts = w.exts ∧
+      (∀ s' es, Dec.feed p m fuel s input = .ok (s', es) → res = .ok s' ∧
+        SimV w' v' g [] (q.run (es.map (·.op)))) ∧
+      (∀ err es, Dec.feed p m fuel s input = .error (err, es) → res = .error err ∧
+        SimV w' v' g [] (q.run (es.map (·.op)))) := by
+  induction fuel with
+  | zero =>
+    intro w v s q input pos hv h _
+    refine ⟨w, v, .ok s, rfl, hv, rfl, ?_, ?_⟩
+    · intro s' es he; simp only [Dec.feed, Except.ok.injEq, Prod.mk.injEq] at he
+      obtain ⟨rfl, rfl⟩ := he; exact ⟨rfl, by simpa [Pipe.run] using h⟩
+    · intro err es he; simp [Dec.feed] at he
+  | succ fuel ih =>
+    intro w v s q input pos hv h hbuf
+    cases input with
+    | nil =>
+      refine ⟨w, v, .ok s, decFeed_nil .., hv, rfl, ?_, ?_⟩
+      · intro s' es he; simp only [Dec.feed, Except.ok.injEq, Prod.mk.injEq] at he
+        obtain ⟨rfl, rfl⟩ := he; exact ⟨rfl, by simpa [Pipe.run] using h⟩
+      · intro err es he; simp [Dec.feed] at he
+    | cons b rest =>
+      obtain ⟨hsrcE, hsrcO⟩ := dec_once_src p m s b rest
+      have hao := Woodpile.Hcobs.DecProof.once_appendOnly p m s b rest
+      cases ho : Dec.once p m s b rest with
+      | error ee =>
+        obtain ⟨err, es⟩ := ee
+        rw [ho] at hao
+        obtain ⟨w1, v1, toks1, g1, g2, g3, g4⟩ := applyStep_sim i g base es w v [] q hv h
+          (opsOk_appends _ _ hao) (fun e he hb => (hsrcE err es ho e he hb).elim)
+        have := applyStep_toks_appends es hao g1
+        subst this
+        have hf : decFeed p m (fuel + 1) w i s base (b :: rest) pos = some (w1, .error err) := by
+          rw [decFeed_cons_error p m fuel w i s base b rest pos err es ho, g1]
+        rw [decfeed_cons_error p m fuel s b rest _ ho]
+        refine ⟨w1, v1, .error err, hf, g2, g4, ?_, ?_⟩
+        · intro s' es' he; cases he
+        · intro err' es' he
+          simp only [Except.error.injEq, Prod.mk.injEq] at he
+          obtain ⟨rfl, rfl⟩ := he
+          exact ⟨rfl, g3⟩
+      | ok o =>
+        rw [ho] at hao
+        obtain ⟨hcl, hpre⟩ := hsrcO o ho
+        have hsrc : SrcOk w { base with off := base.off + pos, len := base.len - pos } o.emits := by
+          intro x hx hb bs hop
+          obtain ⟨hm, hp⟩ := hpre x hx hb bs hop
+          obtain ⟨bb, hb1, hb2⟩ := hbuf hm
+          exact ⟨bb, hb1, hb2.prefix hp⟩
+        obtain ⟨w1, v1, toks1, g1, g2, g3, g4⟩ := applyStep_sim i g _ o.emits w v [] q hv h
+          (opsOk_appends _ _ hao) hsrc
+        have := applyStep_toks_appends o.emits hao g1
+        subst this
+        obtain ⟨w2, v2, res, k1, k2, k3, k4, k5⟩ := ih w1 v1 o.st _ ((b :: rest).drop o.consumed)
+          (pos + o.consumed) g2 g3
+          (by
+            intro hm
+            obtain ⟨bb, hb1, hb2⟩ := hbuf hm
+            refine ⟨bb, hb1, ?_⟩
+            have := (hb2.of_exts g4).drop _ hcl
+            rwa [Nat.add_assoc] at this)
+        have hf : decFeed p m (fuel + 1) w i s base (b :: rest) pos = some (w2, res) := by
+          rw [decFeed_cons_ok p m fuel w i s base b rest pos o ho, g1]; exact k1
+        rw [decfeed_cons_ok p m fuel s b rest o ho]
+        refine ⟨w2, v2, res, hf, k2, k3.trans g4, ?_, ?_⟩
+        · intro s' es he
+          cases hr : Dec.feed p m fuel o.st ((b :: rest).drop o.consumed) with
+          | error ee => rw [hr] at he; obtain ⟨e1, es1⟩ := ee; cases he
+          | ok se =>
+            obtain ⟨s1, es1⟩ := se
+            rw [hr] at he
+            simp only [Except.ok.injEq, Prod.mk.injEq] at he
+            obtain ⟨rfl, rfl⟩ := he
+            obtain ⟨a1, a2⟩ := k4 s1 es1 hr
+            exact ⟨a1, by simpa [List.map_append, Woodpile.Pipe.run_append] using a2⟩
+        · intro err es he
+          cases hr : Dec.feed p m fuel o.st ((b :: rest).drop o.consumed) with
+          | ok se => rw [hr] at he; obtain ⟨s1, es1⟩ := se; cases he
+          | error ee =>
+            obtain ⟨e1, es1⟩ := ee
+            rw [hr] at he
+            simp only [Except.error.injEq, Prod.mk.injEq] at he
+            obtain ⟨rfl, rfl⟩ := he
+            obtain ⟨a1, a2⟩ := k5 e1 es1 hr
+            exact ⟨a1, by simpa [List.map_append, Woodpile.Pipe.run_append] using a2⟩
+
 end Woodpile.EncWorld
